@@ -248,8 +248,8 @@ CHECKS["C13"] = dict(
     rule="one case = one document; to_string is called once with NULL and once per capacity 0..need+3. non-trivial = document >= 3 bytes; distinct = hash(bytes, max_depth)",
     exhaustive_note="per document: all capacities 0..need+3 (documents with <= 4 KiB of text)",
     assumptions=["the text content itself is judged by C14; here only the protocol (sizes, terminator, identical text at all sufficient capacities, no store beyond capacity)"],
-    jobs=[dict(name="c13", src=TEXT, build="gasan", mode="c13", cases=(12000, 300000), require=["to_string_calls", "valid_documents", "invalid_documents"]),
-          dict(name="c13clang", src=TEXT, build="casan", mode="c13", cases=(0, 200000), thorough_only=True),
+    jobs=[dict(name="c13", src=TEXT, build="gasan", mode="c13", cases=(12000, 150000), require=["to_string_calls", "valid_documents", "invalid_documents"]),
+          dict(name="c13clang", src=TEXT, build="casan", mode="c13", cases=(0, 60000), thorough_only=True),
           dict(name="c13vg", src=TEXT, build="plainO1g", mode="c13", cases=(0, 8000), thorough_only=True, wrap="valgrind -q --error-exitcode=99 --undef-value-errors=no", timeout=7200)],
 )
 CHECKS["C14"] = dict(
